@@ -108,7 +108,7 @@ macro_rules! parts {
     }};
 }
 
-static SYS: LockStep = LockStep { property: "C08", probes: false, seed: None, via_feed: false };
+static SYS: LockStep = LockStep { property: "C08", probes: false, seed: None, via_feed: false, merged: false };
 
 /// every way of blanking cells must use the current pen
 fn blank_seed(cfg: &Cfg) -> Vec<Cmd> {
@@ -116,7 +116,7 @@ fn blank_seed(cfg: &Cfg) -> Vec<Cmd> {
     let s: String = (0..n).map(|i| char::from_u32('a' as u32 + (i % 26) as u32).unwrap()).collect();
     vec![Text(s), Cup(Some(1), Some(1))]
 }
-static SYS_BLANK: LockStep = LockStep { property: "C08", probes: false, seed: Some(&blank_seed), via_feed: false };
+static SYS_BLANK: LockStep = LockStep { property: "C08", probes: false, seed: Some(&blank_seed), via_feed: false, merged: false };
 
 fn alpha_blank(cfg: &Cfg) -> Vec<Op> {
     let rows = cfg.rows as u32;
@@ -212,7 +212,7 @@ fn run_sgr_pre(pre: &str, seqs: &[Vec<Vec<Option<u32>>>], c1: bool) -> Result<()
 fn run_sgr_inner(pre: &str, seqs: &[Vec<Vec<Option<u32>>>], c1: bool) -> Result<(), String> {
     // feed each SGR in lock-step, then print + erase and compare cells
     let cfg = Cfg::new(2, 1, Some(0));
-    let mut st = LSt { vt: cfg.build(), model: RefTerm::new(2, 1), dead: false };
+    let mut st = LSt { vt: cfg.build(), model: RefTerm::new(2, 1), dead: false, twin: None };
     st.model.no_scrollback = true;
     for toks in seqs {
         if !pre.is_empty() {
